@@ -46,6 +46,11 @@ type builder struct {
 	all    []*spec
 	log    *callLog
 	ikinds int // number of interpreter kinds to choose from
+	// uniform mode (larger shapes): every non-terminal gets baseKind except
+	// the specialAt-th one, which gets specialKind
+	uniform                          bool
+	baseKind, specialAt, specialKind int
+	nts                              int
 }
 
 type call struct {
@@ -148,7 +153,15 @@ func (b *builder) build(depth, arity int) *spec {
 				s.kids = append(s.kids, b.build(depth-1, arity))
 			}
 		}
-		s.ikind = rt.Choose("interp", b.ikinds)
+		if b.uniform {
+			s.ikind = b.baseKind
+			if b.nts == b.specialAt {
+				s.ikind = b.specialKind
+			}
+			b.nts++
+		} else {
+			s.ikind = rt.Choose("interp", b.ikinds)
+		}
 		s.ip = &interp{sp: s, log: b.log}
 	}
 	s.id = b.next
@@ -176,7 +189,14 @@ func attach(s *spec, mk func(s *spec) parsley.Interpreter) {
 }
 
 func newBuilder(ikinds int) *builder {
-	return &builder{pos: 1, log: &callLog{childSchemasOK: true}, ikinds: ikinds}
+	b := &builder{pos: 1, log: &callLog{childSchemasOK: true}, ikinds: ikinds}
+	if rt.Param("uniform", 0) == 1 && ikinds > 1 {
+		b.uniform = true
+		b.baseKind = rt.Choose("basekind", ikinds)
+		b.specialAt = rt.Choose("specialat", 6)
+		b.specialKind = rt.Choose("specialkind", ikinds)
+	}
+	return b
 }
 
 // C13_Walk: every node exactly once in post-order; stops at once when the
